@@ -178,14 +178,17 @@ let f20b_class = "same_operand_areal_members_overlap"
 
 let bstr b = if b then "1" else "0"
 
-(* concurrent-edges class: the exact arrangement of such a case is expensive (many crossings with large
-   rationals); the first [conc_full] cases of a run get the full exact judgement, the others the light
-   one: no error return, valid results, structural laws, and every check on the real DCEL (invariants,
-   merged vertices, selection, rings) *)
-let conc_seen = ref 0
+(* pencil class (concurrent edges, harness/cmd/c01/genpencil.go): the exact arrangement of a large case
+   is expensive (many witnesses, every one tested against every segment of every result). The harness
+   estimates the size of the arrangement and marks the large cases "pencilx": they get the light
+   judgement (no error return, valid results, structural laws, and every check on the real DCEL:
+   invariants, merged vertices, selection, rings); cases of class "pencil" get the full exact
+   judgement like every other class. With a second argument k the first k pencilx cases of a run are
+   judged in full as well. *)
+let pencilx_seen = ref 0
 let () =
   let path = Sys.argv.(1) in
-  let conc_full = if Array.length Sys.argv > 2 then int_of_string Sys.argv.(2) else 2 in
+  let pencilx_full = if Array.length Sys.argv > 2 then int_of_string Sys.argv.(2) else 0 in
   let samples = ref 0 in
   iter_lines path (fun line ->
       let f = split_tabs line in
@@ -207,8 +210,9 @@ let () =
         end in
       count ("class_" ^ kind ^ "_" ^ cls);
       let failc k name detail = fail id k name (trunc detail) in
-      let light = cls = "conc" && (incr conc_seen; !conc_seen > conc_full) in
-      count (if cls = "conc" then (if light then "conc_light_judgement" else "conc_full_judgement") else "full_judgement");
+      let light = cls = "pencilx" && (incr pencilx_seen; !pencilx_seen > pencilx_full) in
+      count (if light then "light_judgement" else "full_judgement");
+      if cls = "pencil" || cls = "pencilx" then count (if light then "pencil_light_judgement" else "pencil_full_judgement");
       (match unscale_error with Some m -> failc "SPEC" "rescaled_result_not_representable" m | None -> ());
       (try
       let parse_geom (d : string) : q geomT =
@@ -411,6 +415,15 @@ let () =
           else begin
             let o = parse_ov dump in
             count "overlays_judged";
+            (* first phases of the overlay engine against the exact model (ocaml/c01/renode_check.ml) *)
+            if cls <> "float" && cls <> "pencil" && cls <> "pencilx" && cls <> "conc" then begin
+              let empty = GColl (XY, []) in
+              match (match oname, a, b with
+                  | "OV", Some a, Some b -> Some (a, b) | "OVA", Some a, _ -> Some (a, empty)
+                  | "OVB", _, Some b -> Some (b, empty) | "OVM", _, _ -> Some (coll, empty) | _ -> None) with
+              | Some (ga, gb) -> Renode_check.check ~failc ~oname ~a:ga ~b:gb ~tol2 ~vxy:o.vxy ~eseq:o.eseq
+              | None -> ()
+            end;
             (* dcel_re_noding.go: nodes that are close to each other are snapped together - no two
                vertices of the overlay may be closer than 2^-30 x magnitude *)
             let vf = Array.map (fun sxy -> match String.split_on_char ' ' sxy with
@@ -424,6 +437,8 @@ let () =
              | Some (i, j) -> failc "SPEC" "dcel_vertices_not_merged"
                                 (Printf.sprintf "overlay=%s vertices %d and %d: (%.17g %.17g) and (%.17g %.17g)" oname i j (fst vf.(i)) (snd vf.(i)) (fst vf.(j)) (snd vf.(j)))
              | None -> ());
+            (* geom/dcel_fixup.go against its model (ocaml/c01/fixup_check.ml, coq/Model/OverlayFixup.v) *)
+            Fixup_check.check failc count oname o.cx o.vxy o.eseq;
             let parts = [ ("ranges", ranges_ok); ("twin", twin_ok); ("next_prev", next_prev_ok);
                           ("face_cycles", faces_ok); ("euler", euler_ok); ("labels", labels_ok) ] in
             let broken = List.filter (fun (_, f) -> not (f o.cx)) parts in
